@@ -9,7 +9,7 @@ from decimal import Decimal
 
 import rfeel
 import runner
-from common import chunks, crash_signature, panic_signature, rng_for
+from common import chunks, crash_signature, panic_signature, rng_for, warm
 
 LEVEL = "exploration"
 
@@ -163,6 +163,14 @@ def _clashes(ns, c):
     return False
 
 
+def _clash_text(x, env):
+    """x (a fresh canonical name) would read as, or be read into, one of the bound names"""
+    for n in env:
+        if n.startswith(x) or x.startswith(n + " ") or any(x.startswith(n + sym) for sym in SYMBOLS) or any(w == n for w in x.replace("-", " ").replace("+", " ").replace("*", " ").replace("/", " ").replace(".", " ").replace("'", " ").split()):
+            return True
+    return False
+
+
 def templates(roles, rng):
     """list of (position name, tree) using name nodes with canonical names"""
     N1, N2 = ("name", roles["n1"]), ("name", roles["n2"])
@@ -265,7 +273,7 @@ def run(rep, tier, seed):
     rep.rule = (
         "%d rounds x 18 name-set families (random 1-4 word names with and without the symbols . / - ' + *, non-ASCII words; a name that is a prefix of another; a, b and a-b / a+b / a*b / a/b all bound; "
         "a+b bound but b not; three-word symbol names) x 31 expression positions (operands of every arithmetic operator, comparisons, between, in, if, for / some / every domains and bodies, multi-word "
-        "iteration variables and formal parameters, filters, context values and multi-word keys, path heads, positional and named invocation) x 2 random spellings of every name occurrence. "
+        "iteration variables and formal parameters, filters, context values and multi-word keys, path heads, positional and named invocation) x 2 random spellings of every name occurrence; plus histories on one scope object whose names are re-bound between parses (a context gains / loses a multi-word entry, a new multi-word name, a list becomes a list of contexts). "
         "Distinct = rendered text + name set; non-trivial = all of them (every text contains a multi-part name)." % n_rounds
     )
     rep.assumptions = [
@@ -287,7 +295,7 @@ def run(rep, tier, seed):
                 for _ in range(2):
                     texts.append(render_spelled(tree, spellings, rng))
                     exps.append((pos, exp))
-            cases.append({"op": "evalmany", "scope": ns.scope_json(), "texts": texts})
+            cases.append(warm({"op": "evalmany", "scope": ns.scope_json(), "texts": texts}))
             meta.append((fam, ns, exps))
     results, _ = runner.run_cases("dbg", cases, rep.workdir, label="names")
     covered = set()
@@ -299,7 +307,9 @@ def run(rep, tier, seed):
             continue
         for text, (pos, exp), r in zip(case["texts"], exps, res["rs"]):
             rep.count()
-            one = {"variant": "dbg", "case": {"op": "eval", "scope": case["scope"], "text": text}}
+            one = {"variant": "dbg", "case": {"op": "eval", "scope": case["scope"], "warm_scope": case.get("warm_scope"), "reps": 2, "text": text}}
+            if "rep_diff" in r:
+                rep.violation("repeated-evaluation-differs:%s:%s" % (fam, pos), "`%s` evaluated twice by one prepared evaluator over the same scope: %s" % (text[:200], json.dumps(r["rep_diff"])[:300]), one)
             if "panic" in r:
                 rep.violation(panic_signature(r["panic"]) + ":" + fam.split(":")[0], "panic on `%s`" % text[:200], one)
                 continue
@@ -317,6 +327,82 @@ def run(rep, tier, seed):
                 rep.violation("value:%s:%s" % (fam, pos), "names %s: `%s` gave %s, with each bound name resolved as one identifier it is %s" % (sorted(ns.names), text[:200], json.dumps(r.get("v"))[:160], rfeel.show(exp[1])[:160]), one)
             elif len(rep.samples) < 5 and fam != "random":
                 rep.sample({"bound_names": sorted(ns.names), "text": text, "value": r.get("v")})
+    # ---- histories on ONE scope object: names are re-bound between parses (a context gains or loses a multi-word entry, a
+    # list becomes a list of contexts, a new multi-word name appears); every text must resolve against the bindings of
+    # that moment
+    hcases, hmeta = [], []
+    n_hist = 300 if tier == "quick" else 12000
+    for h in range(n_hist):
+        fam, ns, roles = rng.choice(families(rng))
+        env = ns.env()[0]
+        C, L, N1, N2 = roles["ctx"], roles["lst"], ("name", roles["n1"]), ("name", roles["n2"])
+        k1, k2, newname = canon(make_name(rng, rng.choice([2, 3]), 0.3)), canon(make_name(rng, 2, 0.0)), canon(make_name(rng, rng.choice([2, 3]), 0.3))
+        if any(x in env or _clash_text(x, env) for x in (k1, k2, newname)) or len({k1, k2, newname}) < 3:
+            continue
+        steps, exps = [], []
+
+        def text(tree, pos, written=None):
+            try:
+                exp = ("ok", rfeel.ev(tree, [dict(env)]))
+            except rfeel.Undecided as u:
+                exp = ("undecided", str(u))
+            # `written`: the text without the parentheses the renderer would add, so that a multi-word name is directly
+            # followed by an operator (that is where its end depends on the names in scope)
+            steps.append({"text": written or rfeel.render(tree)})
+            exps.append((pos, exp))
+
+        SYM = {"mul": "*", "add": "+", "sub": "-", "div": "/"}
+
+        def rebind(name, value):
+            env[name] = value
+            steps.append({"set": [[name, rfeel.to_json(value)]]})
+            exps.append(None)
+
+        n1s, n2s = roles["n1"], roles["n2"]
+        text(("add", ("path", ("name", C), "entry"), N1), "before", "%s.entry + %s" % (C, n1s))
+        rebind(C, {"entry": Decimal(3), k1: Decimal(400)})
+        for op in rng.sample(["mul", "add", "sub", "div"], 2):
+            text((op, ("path", ("name", C), k1), N1), "context-gained-entry:" + op, "%s.%s %s %s" % (C, k1, SYM[op], n1s))
+        rebind(C, {"entry": Decimal(5)})
+        text(("add", ("path", ("name", C), "entry"), N2), "context-lost-entry", "%s.entry + %s" % (C, n2s))
+        rebind(newname, Decimal(9))
+        for op in rng.sample(["mul", "add", "sub", "div"], 2):
+            text((op, ("name", newname), N1), "new-name:" + op, "%s %s %s" % (newname, SYM[op], n1s))
+        rebind(L, [{k2: Decimal(1)}, {k2: Decimal(2)}, {k2: Decimal(5)}])
+        text(("path", ("name", L), k2), "list-became-contexts:path", "%s.%s" % (L, k2))
+        text(("for", [("x", ("dom_list", ("name", L)))], ("mul", ("path", ("name", "x"), k2), N2)), "list-became-contexts:for", "for x in %s return x.%s * %s" % (L, k2, n2s))
+        rebind(roles["n1"], Decimal(1000))
+        text(("sub", N1, N2), "number-rebound", "%s - %s" % (n1s, n2s))
+        hcases.append({"op": "scopehist", "scope": ns.scope_json(), "steps": steps})
+        hmeta.append((fam, sorted(ns.names), exps))
+    hres, _ = runner.run_cases("dbg", hcases, rep.workdir, label="histories")
+    hsteps = 0
+    for case, (fam, names, exps), res in zip(hcases, hmeta, hres):
+        if "harness_error" in res or res.get("missing"):
+            raise runner.Inconclusive("driver harness error: %s" % json.dumps(res)[:300])
+        if "rs" not in res:
+            rep.violation(crash_signature(res, "c10-history"), "history died: %s" % json.dumps(res)[:300], {"variant": "dbg", "case": case})
+            continue
+        for k, (st, e, r) in enumerate(zip(case["steps"], exps, res["rs"])):
+            if e is None:
+                continue
+            pos, exp = e
+            rep.count()
+            hsteps += 1
+            one = {"variant": "dbg", "case": {"op": "scopehist", "scope": case["scope"], "steps": case["steps"][: k + 1]}}
+            if "panic" in r:
+                rep.violation(panic_signature(r["panic"]) + ":history", "panic on `%s`" % st["text"][:200], one)
+                continue
+            if exp[0] == "undecided":
+                rep.undecided += 1
+                continue
+            covered.add(("history", pos))
+            if "perr" in r or "berr" in r:
+                rep.violation("rejected:history:%s" % pos, "names %s, after the re-bindings of this history `%s` is rejected: %s" % (names, st["text"][:200], r.get("perr") or r.get("berr")), one)
+            elif not rfeel.same(exp[1], r.get("v")):
+                one["expected"], one["observed"] = rfeel.show(exp[1]), r
+                rep.violation("value:history:%s" % pos, "names %s, after the re-bindings of this history `%s` gave %s, the bindings of that moment give %s" % (names, st["text"][:200], json.dumps(r.get("v"))[:160], rfeel.show(exp[1])[:160]), one)
+    rep.extra["history_steps_judged"] = hsteps
     rep.extra["family_x_position_covered"] = len(covered)
     if rep.evaluations < 5000:
         rep.inconclusive_reason("too few evaluations: %d" % rep.evaluations)
